@@ -200,7 +200,7 @@ func genC04Tree(t *rapid.T) C04Tree {
 	put("share/zsh/_aa-log", "#compdef aa-log\n")
 	put("share/man/aa-log.8", ".TH aa-log\n")
 
-	tr.Pollute = subsetOrdered(t, "pollute", []string{"stale-profile", "junk-dir", "systemd-junk", "dangling-symlink", "junk-file", "share-junk"}, 0, 3)
+	tr.Pollute = subsetOrdered(t, "pollute", []string{"stale-profile", "junk-dir", "systemd-junk", "dangling-symlink", "junk-file", "share-junk", "hidden-file", "hidden-dir"}, 0, 3)
 	return tr
 }
 
